@@ -484,6 +484,23 @@ func genFrameRanges(r *Rand, n int, thorough, multi bool, emit func(string)) {
 			emit(fsOp(r, fmt.Sprintf("%d-%dx%d,%d-%d%s%d", a, b, s, c, e, mod, s), fmt.Sprintf("c:%d:%d:x:%d/c:%d:%d:%s:%d", a, b, s, c, e, m2, s)))
 			continue
 		}
+		if i%83 == 7 {
+			// a LATER component at the very end of the integer range (the first one is stored as
+			// it is, later ones are walked value by value)
+			hi := "9223372036854775807"
+			lo := "-9223372036854775808"
+			cands := [][2]string{
+				{"1-5," + hi, "r:1:5/s:" + hi},
+				{"1," + "9223372036854775806-" + hi, "s:1/r:9223372036854775806:" + hi},
+				{"7," + lo, "s:7/s:" + lo},
+				{"1,-9223372036854775807-" + lo, "s:1/r:-9223372036854775807:" + lo},
+				{hi + ",1-3," + "9223372036854775805-" + hi + "x2", "s:" + hi + "/r:1:3/c:9223372036854775805:" + hi + ":x:2"},
+				{"5," + hi + "-9223372036854775806", "s:5/r:" + hi + ":9223372036854775806"},
+			}
+			c := cands[r.Intn(len(cands))]
+			emit(fsOp(r, c[0], c[1]))
+			continue
+		}
 		if i%89 == 23 {
 			// a single frame directly followed by a stepped run that starts exactly one step later
 			// (either direction), optionally behind an unrelated component
